@@ -94,6 +94,8 @@ def run(tier, seed, rng):
             cfg['inv_dtype'] = rng.choice(['float32', 'float64'])
         if rng.random() < 0.2:
             cfg['factor_dtype'] = rng.choice(['float32', 'float64'])
+        if k % 6 == 4:
+            cfg['factor_dtype'] = 'bfloat16'; cfg['model_dtype'] = 'float32'
         hist = kfacgen.gen_history(rng, tier, cfg)
         W = cfg['W']
         case = {'cfg': cfg, 'history': hist}
